@@ -107,7 +107,7 @@ Obs(name, mode, value, arg, plan, leftBefore, sent, ret, errno, data, pops, clos
     [k |-> "op", name |-> name, mode |-> mode, value |-> value, arg |-> arg, plan |-> plan,
      left_before |-> leftBefore, sent |-> sent, ret |-> ret,
      errid |-> IF errno > 0 THEN << errno >> ELSE << >>, data |-> data,
-     pops |-> pops, left |-> 0, closes |-> closes]
+     pops |-> pops, left |-> 0, closes |-> closes, rtype |-> 0]
 
 Commit(o, w, ctr, pend) ==
     /\ wire' = w /\ seqctr' = ctr /\ pending' = pend
@@ -237,6 +237,27 @@ Close(plan) ==
                           wire \o Resolve(PlanAt(plan, 1), s), s, Append(pending, s))
                ELSE
                    Commit(Obs("Close", "wait", LimbsZero, << >>, plan, Len(wire), << >>, "nil", 0, << >>, 0, 1), wire, seqctr, pending)
+
+\* GetStatusAsync(requireACK): send AUDIT_GET and return at once; the caller reads the answers
+\* with Receive (the way Beats uses the client)
+GetStatusAsync(requireACK, plan) ==
+    LET s == seqctr + 1
+        flags == IF requireACK THEN NLM_F_REQUEST + NLM_F_ACK ELSE NLM_F_REQUEST
+    IN  /\ Commit([Obs("GetStatusAsync", "nowait", IF requireACK THEN Limbs(1) ELSE LimbsZero, << >>, plan, Len(wire),
+                        << [Sent(AUDIT_GET, s, << >>) EXCEPT !.flags = flags] >>, "nil", 0, << >>, 0, 0) EXCEPT !.rtype = 0],
+                  wire \o Resolve(PlanAt(plan, 1), s), s, pending)
+        /\ UNCHANGED << clearPid, onceDone, ncloses >>
+
+\* Receive(nonBlocking): one datagram from the socket, whatever it is
+Receive ==
+    IF Len(wire) = 0 THEN
+        /\ Commit([Obs("Receive", "wait", LimbsZero, << >>, << >>, 0, << >>, "err", 0, << >>, 0, 0) EXCEPT !.rtype = 0], wire, seqctr, pending)
+        /\ UNCHANGED << clearPid, onceDone, ncloses >>
+    ELSE LET f == Head(wire) IN
+        /\ Commit([Obs("Receive", "wait", LimbsZero, << >>, << >>, Len(wire), << >>, IF f.k = "msg" THEN "nil" ELSE "err", 0,
+                        IF f.k = "msg" THEN << f.payload >> ELSE << >>, 1, 0) EXCEPT !.rtype = IF f.k = "msg" THEN f.type ELSE 0],
+                  Tail(wire), seqctr, pending)
+        /\ UNCHANGED << clearPid, onceDone, ncloses >>
 
 Init ==
     /\ wire = << >> /\ seqctr = 0 /\ pending = << >> /\ clearPid = FALSE /\ onceDone = FALSE /\ ncloses = 0
